@@ -259,8 +259,14 @@ class _SetIteration:
                 # in sorted order. Other than that, we have no guarantee.
                 # Sort the way the containers order their keys (``None``
                 # is the smallest object key), not with the bare ``<``.
-                self.to_iterate = to_iterate = sorted(
+                # A repeated key would be copied to the output as often
+                # as it occurs, so drop duplicates as well.
+                to_iterate = sorted(
                     self.to_iterate, key=cmp_to_key(compare))
+                self.to_iterate = to_iterate = [
+                    k for i, k in enumerate(to_iterate)
+                    if not i or compare(to_iterate[i - 1], k) != 0
+                ]
 
         if useValues:
             try:
